@@ -64,4 +64,202 @@ theorem at_eq_getElem? (c : Nat) (hc : 0 < c) (s : Linked α) (h : WF c s) (i : 
     rw [this]
     simp [hi]
 
+
+/-! ### `Set` / `Push` / `Pop` are the list operations on the slots in use -/
+
+theorem take_set_lt (v : α) : ∀ (l : List α) (i n : Nat), i < n → (l.set i v).take n = (l.take n).set i v
+  | [], _, _, _ => by simp
+  | x :: xs, 0, n + 1, _ => by simp
+  | x :: xs, i + 1, n + 1, h => by simp [take_set_lt v xs i n (by omega)]
+  | x :: xs, i, 0, h => by omega
+
+theorem take_succ_set (v : α) : ∀ (l : List α) (n : Nat), n < l.length → (l.set n v).take (n + 1) = l.take n ++ [v]
+  | [], n, h => by simp at h
+  | x :: xs, 0, _ => by simp
+  | x :: xs, n + 1, h => by simp [take_succ_set v xs n (by simpa using h)]
+
+theorem flatten_modify_set (c : Nat) (v : α) :
+    ∀ (t : List (List α)) (a b : Nat), (∀ ch ∈ t, ch.length = c) → a < t.length → b < c →
+      (t.modify a (fun ch => ch.set b v)).flatten = t.flatten.set (a * c + b) v
+  | [], a, b, _, h, _ => by simp at h
+  | ch :: t, 0, b, hu, _, hb => by
+    have hch : ch.length = c := hu ch (by simp)
+    simp only [List.modify_zero_cons, List.flatten_cons, Nat.zero_mul, Nat.zero_add]
+    rw [List.set_append_left _ _ (by omega)]
+  | ch :: t, a + 1, b, hu, ha, hb => by
+    have hch : ch.length = c := hu ch (by simp)
+    have ht : ∀ x ∈ t, x.length = c := fun x hx => hu x (by simp [hx])
+    have ih := flatten_modify_set c v t a b ht (by simpa using ha) hb
+    simp only [List.modify_succ_cons, List.flatten_cons, ih]
+    rw [List.set_append_right _ _ (by rw [hch, Nat.succ_mul]; omega)]
+    congr 2
+    rw [hch, Nat.succ_mul]; omega
+
+theorem grow_spec (c : Nat) (zero : α) (t : List (List α)) (l : Nat) (hu : ∀ ch ∈ t, ch.length = c) :
+    (∀ ch ∈ grow c zero t l, ch.length = c) ∧ (grow c zero t l).length = t.length + (l - t.length) ∧
+    (grow c zero t l).flatten = t.flatten ++ List.replicate ((l - t.length) * c) zero := by
+  unfold grow
+  refine ⟨?_, by simp, by simp [List.flatten_replicate_replicate]⟩
+  intro ch hch
+  rcases List.mem_append.mp hch with h | h
+  · exact hu ch h
+  · rw [List.eq_of_mem_replicate h]; simp
+
+def full (s : Linked α) : List α := s.head ++ s.tail.flatten
+
+theorem flatten_length_uniform (c : Nat) : ∀ (t : List (List α)), (∀ ch ∈ t, ch.length = c) →
+    t.flatten.length = t.length * c
+  | [], _ => by simp
+  | ch :: t, hu => by
+    have := flatten_length_uniform c t (fun x hx => hu x (by simp [hx]))
+    simp [this, hu ch (by simp), Nat.succ_mul]; omega
+
+theorem full_length (c : Nat) (s : Linked α) (h : WF c s) : (full s).length = c * (s.tail.length + 1) := by
+  obtain ⟨hh, ht, _⟩ := h
+  simp only [full, List.length_append, hh, flatten_length_uniform c s.tail ht]
+  rw [Nat.mul_add, Nat.mul_one, Nat.mul_comm]; omega
+
+theorem modify_uniform (c : Nat) (b : Nat) (v : α) : ∀ (t : List (List α)) (a : Nat),
+    (∀ ch ∈ t, ch.length = c) → ∀ ch ∈ t.modify a (fun ch => ch.set b v), ch.length = c
+  | [], _, _, ch, h => by simp at h
+  | x :: t, 0, hu, ch, h => by
+    simp only [List.modify_zero_cons, List.mem_cons] at h
+    rcases h with rfl | h
+    · simp [hu x (by simp)]
+    · exact hu ch (by simp [h])
+  | x :: t, a + 1, hu, ch, h => by
+    simp only [List.modify_succ_cons, List.mem_cons] at h
+    rcases h with rfl | h
+    · exact hu ch (by simp)
+    · exact modify_uniform c b v t a (fun y hy => hu y (by simp [hy])) ch h
+
+/-- what `Set(i, v)` does to the allocated slots: slot `i` is overwritten, after the allocation has
+    been extended by zero-filled chunks when `i` lies beyond it -/
+theorem set_full (c : Nat) (hc : 0 < c) (zero : α) (s : Linked α) (h : WF c s) (i : Nat) (hi : i ≤ s.size) (v : α) :
+    WF c (set c zero s i v) ∧ (set c zero s i v).size = (if s.size ≤ i then i + 1 else s.size) ∧
+    ∃ z, full (set c zero s i v) = (full s ++ z).set i v ∧ i < (full s ++ z).length := by
+  have hfl := full_length c s h
+  obtain ⟨hh, ht, hs⟩ := h
+  unfold set
+  by_cases hic : i < c
+  · rw [if_pos hic]
+    refine ⟨⟨by simp [hh], ht, ?_⟩, rfl, [], ?_, ?_⟩
+    · simp only
+      split
+      · have : c ≤ c * (s.tail.length + 1) := Nat.le_mul_of_pos_right c (by omega)
+        omega
+      · exact hs
+    · simp only [full, List.append_nil]
+      rw [List.set_append_left _ _ (by omega)]
+    · simp only [List.append_nil, hfl]
+      have : c ≤ c * (s.tail.length + 1) := Nat.le_mul_of_pos_right c (by omega)
+      omega
+  · rw [if_neg hic]
+    have hci : c ≤ i := Nat.le_of_not_lt hic
+    have hb : i % c < c := Nat.mod_lt i hc
+    have hdm := Nat.div_add_mod i c
+    have hq : 1 ≤ i / c := (Nat.one_le_div_iff hc).mpr hci
+    obtain ⟨g1, g2, g3⟩ := grow_spec c zero s.tail (i / c - 1 + 1) ht
+    have ha : i / c - 1 < (grow c zero s.tail (i / c - 1 + 1)).length := by rw [g2]; omega
+    have hidx : (i / c - 1) * c + i % c = i - c := by
+      have h1 : (i / c - 1) * c = i / c * c - c := by rw [Nat.sub_mul, Nat.one_mul]
+      have h2 : c * (i / c) = i / c * c := Nat.mul_comm _ _
+      have h3 : c ≤ i / c * c := by
+        calc c = 1 * c := (Nat.one_mul c).symm
+          _ ≤ i / c * c := Nat.mul_le_mul_right c hq
+      omega
+    refine ⟨⟨hh, modify_uniform c _ v _ _ g1, ?_⟩, rfl, List.replicate ((i / c - 1 + 1 - s.tail.length) * c) zero, ?_, ?_⟩
+    · simp only [List.length_modify, g2]
+      split
+      · -- i = size: the chunk of slot i is allocated now
+        have hlt : i < c * (i / c + 1) := Nat.lt_mul_div_succ i hc
+        have hmono : c * (i / c + 1) ≤ c * (s.tail.length + (i / c - 1 + 1 - s.tail.length) + 1) :=
+          Nat.mul_le_mul_left c (by omega)
+        omega
+      · have hmono : c * (s.tail.length + 1) ≤ c * (s.tail.length + (i / c - 1 + 1 - s.tail.length) + 1) :=
+          Nat.mul_le_mul_left c (by omega)
+        omega
+    · simp only [full]
+      rw [flatten_modify_set c v _ _ _ g1 ha hb, hidx, List.append_assoc, ← g3]
+      have hle : s.head.length ≤ i := by omega
+      rw [List.set_append_right _ _ hle, hh]
+    · rw [List.length_append, hfl, List.length_replicate]
+      by_cases hlt : i < c * (s.tail.length + 1)
+      · omega
+      · -- then i = size = everything allocated so far, and exactly one new chunk is added
+        have hge : c * (s.tail.length + 1) ≤ i := Nat.le_of_not_lt hlt
+        have heq : i = c * (s.tail.length + 1) := by omega
+        have hdiv : i / c = s.tail.length + 1 := by
+          rw [heq, Nat.mul_comm, Nat.mul_div_cancel _ hc]
+        have : (i / c - 1 + 1 - s.tail.length) * c = c := by
+          rw [hdiv]; simp
+        omega
+
+/-- `Set(i, v)` with `i` a used slot or the first free one, on the flat list -/
+theorem set_toList (c : Nat) (hc : 0 < c) (zero : α) (s : Linked α) (h : WF c s) (i : Nat) (hi : i ≤ s.size) (v : α) :
+    WF c (set c zero s i v) ∧
+    toList (set c zero s i v) = (if i < s.size then (toList s).set i v else toList s ++ [v]) := by
+  have hfl := full_length c s h
+  have hs := h.2.2
+  obtain ⟨w, hsz, z, hf, hlt⟩ := set_full c hc zero s h i hi v
+  refine ⟨w, ?_⟩
+  have ht : ∀ t : Linked α, toList t = (full t).take t.size := fun _ => rfl
+  rw [ht, ht, hf, hsz]
+  by_cases hlt' : i < s.size
+  · rw [if_neg (by omega), if_pos hlt', take_set_lt v _ i s.size hlt',
+      List.take_append_of_le_length (by omega)]
+  · have heq : i = s.size := by omega
+    subst heq
+    rw [if_pos (Nat.le_refl _), if_neg hlt', take_succ_set v _ _ hlt,
+      List.take_append_of_le_length (by omega)]
+
+/-- `Push(v)` appends -/
+theorem push_toList (c : Nat) (hc : 0 < c) (zero : α) (s : Linked α) (h : WF c s) (v : α) :
+    WF c (push c zero s v) ∧ toList (push c zero s v) = toList s ++ [v] := by
+  have := set_toList c hc zero s h s.size (Nat.le_refl _) v
+  simpa [push] using this
+
+theorem take_set_ge (v : α) : ∀ (l : List α) (i n : Nat), n ≤ i → (l.set i v).take n = l.take n
+  | [], _, _, _ => by simp
+  | x :: xs, _, 0, _ => by simp
+  | x :: xs, 0, n + 1, h => by omega
+  | x :: xs, i + 1, n + 1, h => by simp [take_set_ge v xs i n (by omega)]
+
+theorem dropLast_take' : ∀ (l : List α) (n : Nat), n ≤ l.length → (l.take n).dropLast = l.take (n - 1)
+  | _, 0, _ => by simp
+  | [], n + 1, h => by simp at h
+  | x :: xs, n + 1, h => by
+    cases n with
+    | zero => simp
+    | succ n =>
+      have := dropLast_take' xs (n + 1) (by simpa using h)
+      simp only [List.take_succ_cons, Nat.add_sub_cancel] at this ⊢
+      rw [List.dropLast_cons_of_ne_nil (by
+        cases xs with
+        | nil => simp at h
+        | cons y ys => simp), this]
+
+/-- `Pop()` drops the last used slot -/
+theorem pop_toList (c : Nat) (hc : 0 < c) (zero : α) (s : Linked α) (h : WF c s) :
+    WF c (pop c zero s) ∧ toList (pop c zero s) = (toList s).dropLast := by
+  unfold pop
+  by_cases h0 : s.size = 0
+  · rw [if_pos h0]
+    exact ⟨h, by simp [toList, h0]⟩
+  · rw [if_neg h0]
+    have hfl := full_length c s h
+    have hs := h.2.2
+    obtain ⟨w, hsz, z, hf, hlt⟩ := set_full c hc zero s h (s.size - 1) (by omega) zero
+    rw [if_neg (by omega)] at hsz
+    obtain ⟨w1, w2, w3⟩ := w
+    refine ⟨⟨w1, w2, by simp only; omega⟩, ?_⟩
+    have ht : ∀ t : Linked α, toList t = (full t).take t.size := fun _ => rfl
+    rw [ht, ht]
+    show (full (set c zero s (s.size - 1) zero)).take (s.size - 1) = _
+    rw [hf, take_set_ge zero _ _ _ (Nat.le_refl _), List.take_append_of_le_length (by omega),
+      dropLast_take' _ _ (by omega)]
+
+theorem empty_spec (c : Nat) (zero : α) : WF c (empty c zero) ∧ toList (empty c zero) = [] := by
+  refine ⟨⟨by simp [empty], by simp [empty], by simp [empty]⟩, by simp [toList, empty]⟩
+
 end SonicSpec.Ast.Linked
